@@ -67,6 +67,10 @@ package mint
 //@   loop range(blindedMessages) invariant 0 <= i && i <= len(blindedMessages) && len(blindedSignatures) == len(blindedMessages) && sum.sig.amount(seq(blindedSignatures), i) == sum.bm.amount(seq(blindedMessages), i) && (forall j :: 0 <= j && j < i ==> blindedSignatures[j].Amount == blindedMessages[j].Amount && blindedSignatures[j].Id == m.activeKeyset.Id && blindedMessages[j].Id == m.activeKeyset.Id && blindedSignatures[j].DLEQ != nil && (blindedMessages[j].Amount in m.activeKeyset.Keys) && signedby(blindedSignatures[j], blindedMessages[j], sc.of(m.activeKeyset.Keys[blindedMessages[j].Amount].PrivateKey.Key)))
 
 //@ func (*Mint).Swap
+// C16: a successful swap adds exactly its signatures to the issued total and exactly its inputs to the redeemed
+// total; a refusal without storage fault leaves both as they were
+//@   ensures @totals [C16] err == nil ==> db.issuedtotal == old(db.issuedtotal) + sum.sig.amount(seq(result), len(result)) && db.redeemedtotal == old(db.redeemedtotal) + sum.proof.amount(seq(proofs), len(proofs))
+//@   ensures @totalskept [C16,C06] err != nil && db.faults == old(db.faults) ==> db.issuedtotal == old(db.issuedtotal) && db.redeemedtotal == old(db.redeemedtotal)
 // rely/guarantee tier: with other requests acting between any two store calls, a successful swap has its inputs spent
 //@   rgensures @spent [C01] err == nil ==> (forall i :: 0 <= i && i < len(proofs) ==> db.spent[Yof(proofs[i].Secret)])
 //@   records api.err api.calls
@@ -108,6 +112,9 @@ package mint
 //@   ensures @transition [C03] db.mqrow[quoteId] == old(db.mqrow)[quoteId] || (old(db.mqrow)[quoteId].State == nut04.Unpaid && db.mqrow[quoteId] == setfield(old(db.mqrow)[quoteId], "State", nut04.Paid))
 
 //@ func (*Mint).MintTokens
+// C16: a successful issuance adds exactly its signatures to the issued total; the redeemed total is untouched
+//@   ensures @totals [C16] err == nil && result != nil ==> db.issuedtotal == old(db.issuedtotal) + sum.sig.amount(seq(result), len(result)) && db.redeemedtotal == old(db.redeemedtotal)
+//@   ensures @totalskept [C16,C06] err != nil && db.faults == old(db.faults) ==> db.issuedtotal == old(db.issuedtotal) && db.redeemedtotal == old(db.redeemedtotal)
 // rely/guarantee tier: with other requests (other mint requests for the same quote, state polls, the
 // invoice watcher) acting between any two store calls, every state write is still a legal step
 //@   rgensures @exists [C03] err == nil ==> db.mq[mintTokensRequest.Quote]
@@ -139,6 +146,8 @@ package mint
 //@ macro ysof(Ys, proofs) = len(Ys) == len(proofs) && (forall i :: 0 <= i && i < len(proofs) ==> Ys[i] == Yof(proofs[i].Secret))
 
 //@ func (*Mint).settleProofs
+//@   ensures @totals [C16] err == nil ==> db.redeemedtotal == old(db.redeemedtotal) + sum.proof.amount(seq(proofs), len(proofs)) && db.issuedtotal == old(db.issuedtotal)
+//@   ensures @totalskept [C16] err != nil ==> db.redeemedtotal == old(db.redeemedtotal) && db.issuedtotal == old(db.issuedtotal)
 // rely/guarantee tier: every store step of this operation is a step the rely clauses allow
 //@   rgensures @steps [C01,C03] true
 //@   ensures @cashuerr [C20] err != nil ==> iscashu(err) && !valinternal(err)
@@ -187,6 +196,10 @@ package mint
 //@ macro payfailed() = ln.payerr != nil || ln.pay.PaymentStatus == lightning.Failed
 
 //@ func (*Mint).MeltTokens
+// C16: a melt never issues; its inputs are added to the redeemed total exactly when it ends PAID
+//@   ensures @totals [C16] err == nil && result.State == nut05.Paid ==> db.redeemedtotal == old(db.redeemedtotal) + sum.proof.amount(seq(meltTokensRequest.Inputs), len(meltTokensRequest.Inputs))
+//@   ensures @noissue [C16] db.faults == old(db.faults) ==> db.issuedtotal == old(db.issuedtotal)
+//@   ensures @notredeemed [C16] err == nil && result.State != nut05.Paid ==> db.redeemedtotal == old(db.redeemedtotal)
 // rely/guarantee tier: the melt's own store steps stay within the rely of the other requests
 //@   rgensures @quoteexists [C01] err == nil ==> db.melt[meltTokensRequest.Quote]
 //@   records api.err api.calls
@@ -288,6 +301,21 @@ package mint
 // A-INV16: the totals kept by the store stay below 2^63 (sqlite cannot even
 // store larger amounts) and redeemed ecash was issued before (no counterfeits).
 //@ macro totalsinv() = 0 <= db.redeemedtotal && db.redeemedtotal <= db.issuedtotal && db.issuedtotal < 9223372036854775808
+
+// the reported per-keyset totals are the store's, unchanged: their sums are the ghost totals that every
+// SaveBlindSignatures / SaveProofs call site feeds (storage contracts; the SQL views: bounded dbconf)
+//@ func (*Mint).IssuedEcash
+//@   tags C16
+//@   safety C06
+//@   requires m.db != nil
+//@   ensures @store [C16] r1 == nil ==> r0 != nil && mapsum.str(mapkeys(r0), mapvals(r0)) == db.issuedtotal
+//@   ensures @errisfault [C16] r1 != nil ==> db.faults > old(db.faults)
+//@ func (*Mint).RedeemedEcash
+//@   tags C16
+//@   safety C06
+//@   requires m.db != nil
+//@   ensures @store [C16] r1 == nil ==> r0 != nil && mapsum.str(mapkeys(r0), mapvals(r0)) == db.redeemedtotal
+//@   ensures @errisfault [C16] r1 != nil ==> db.faults > old(db.faults)
 
 //@ func (*Mint).TotalBalance
 //@   tags C16
